@@ -752,6 +752,60 @@ func c37Case(pg *c37PGraph, op *c37Op, res c37Result, class, text string, step i
 	return c
 }
 
+// c37CreateEdgeRenumbers: Create appends the new connection to the map of the deepest container that
+// both endpoints share (edgeTrimCommon + the scope walk of _set); a parallel connection (same endpoints
+// and arrowheads) that is declared in an OUTER scope, textually after the start of that map, is compiled
+// later and therefore moves up by one index, and the returned ID names that old connection.
+func c37CreateEdgeRenumbers(g *d2graph.Graph, pg *c37PGraph, op *c37Op) bool {
+	if op.eid.hasIdx || len(op.eid.src) < 2 || len(op.eid.dst) < 2 {
+		return false
+	}
+	// the scope Create appends to
+	scopeObj := g.Root
+	var scope *d2ast.Map
+	cur := g.Root
+	for i := 0; i < len(op.eid.src)-1 && i < len(op.eid.dst)-1; i++ {
+		if !strings.EqualFold(op.eid.src[i], op.eid.dst[i]) {
+			break
+		}
+		next, ok := cur.HasChild([]string{c37KeySeg(op.eid.src[i])})
+		if !ok {
+			break
+		}
+		cur = next
+		if cur.Map != nil {
+			scopeObj, scope = cur, cur.Map
+		}
+	}
+	if scope == nil {
+		return false
+	}
+	isAnc := func(a, o *d2graph.Object) bool { // a is a strict ancestor of o
+		for o = o.Parent; o != nil; o = o.Parent {
+			if o == a {
+				return true
+			}
+		}
+		return false
+	}
+	for _, e := range pg.Edges {
+		if e.Src == nil || e.Dst == nil || e.SA != op.eid.sa || e.DA != op.eid.da ||
+			strings.Join(e.Src.Path, "\x00") != strings.Join(op.eid.src, "\x00") || strings.Join(e.Dst.Path, "\x00") != strings.Join(op.eid.dst, "\x00") {
+			continue
+		}
+		for _, ref := range e.edge.References {
+			if ref.MapKey == nil || ref.ScopeObj == nil || ref.MapKey.EdgeIndex != nil {
+				continue
+			}
+			if (ref.ScopeObj == g.Root || isAnc(ref.ScopeObj, scopeObj)) && ref.ScopeObj != scopeObj &&
+				ref.MapKey.Range.Start.Line >= scope.Range.Start.Line {
+				return true
+			}
+		}
+	}
+	return false
+}
+
 // c37KF: known-finding signatures (narrow predicates on the input)
 func c37KF(g *d2graph.Graph, pg *c37PGraph, op *c37Op) []string {
 	var kf []string
@@ -759,6 +813,9 @@ func c37KF(g *d2graph.Graph, pg *c37PGraph, op *c37Op) []string {
 	case "create-edge":
 		if op.eid.hasIdx {
 			kf = append(kf, "C37-create-indexed-edge-key")
+		}
+		if c37CreateEdgeRenumbers(g, pg, op) {
+			kf = append(kf, "C37-create-edge-renumbers-parallel-edge-declared-later")
 		}
 	case "set-edge":
 		if op.Key != op.tedge.ID { // key of the form (a -> b)[i].<reserved...>
@@ -995,6 +1052,10 @@ var c37Scripts = []c37Script{
 	{c37ArrowCorpus[2], "set-edge", "(a.c -> b)[0].source-arrowhead.shape", "circle"},
 	{c37ArrowCorpus[2], "set-edge", "(a.c -> b)[0].source-arrowhead.style.filled", "true"},
 	{c37ArrowCorpus[2], "set-edge", "(b <- a)[0].target-arrowhead.label", "y"},
+	// a parallel connection declared at the root after the container's map
+	{"d: L1 {\n  a: L2\n  b: L3\n}\nd.a -> d.b: E1\n", "create-edge", "d.a -> d.b", ""},
+	{"d: L1\nD: {\n  a: L2\n  b: L3\n}\nd.a -> d.b: E1\n", "create-edge", "d.a -> d.b", ""},
+	{"d: L1\nD: {\n  a: L2\n  b: L3\n  a -> B: E0\n}\nd.a -> d.b: E1\n", "create-edge", "d.a -> d.b", ""},
 	// recorded findings (minimal inputs)
 	{"a: L1\nb: L2\na -> b: E1\n(a -> b)[0].target-arrowhead: many {\n  shape: diamond\n}\n", "set-edge", "(a -> b)[0].source-arrowhead.style.filled", "false"},
 	{"a: L1\nb: L2\na -> b: E1\n(a -> b)[0].target-arrowhead.label: 1\n(a -> b)[0].target-arrowhead.label: many\n", "set-edge", "(a -> b)[0].target-arrowhead.label", "x"},
